@@ -128,6 +128,7 @@ func checkC12(c *CheckCtx) error {
 		}
 	}
 	scs = append(scs, houseOptions()...)
+	scs = append(scs, writeErrorThenMore()...)
 	for _, h := range hugeDoc() {
 		// nothing of a call may stick to the package-level defaults other Configs are copied from
 		h.Tags = append(h.Tags, "also:C12")
@@ -274,6 +275,30 @@ func houseOptions() []*Scenario {
 				out = append(out, sc)
 			}
 		}
+	}
+	return out
+}
+
+// writeErrorThenMore: a call through a Config fails on a file-system write error; what later calls
+// through the same Config (and through a Config with the same options) do is unchanged: the options
+// it was built with still hold.
+func writeErrorThenMore() []*Scenario {
+	var out []*Scenario
+	for i, cfg := range []string{"ut", "c", "uf"} {
+		sc := &Scenario{ID: fmt.Sprintf("we%d", i), Configs: stdConfigs(), Program: []string{"TestD", "TestE"}, Tags: []string{"also:C12"}}
+		// the standalone file of TestD's first call is a directory: reading and writing it fail
+		sc.Init = append(sc.Init, InitFile{P: "snaps/TestD_1.snap", IsDir: true}, InitFile{P: "snaps/TestD_1.snap/occupied", Content: []byte("x"), Role: "other"},
+			InitFile{P: "snaps/main_test.snap", Role: "multi", Content: []byte("\n[TestE - 1]\nold\n---\n")})
+		steps := []*Step{{Op: "begin", Name: "TestD"},
+			{Op: "match", Name: "TestD", API: "ssnap", Cfg: cfg, Val: strVal("cannot be stored"), X: &Expect{Unwritable: true}},
+			{Op: "end", Name: "TestD"}, {Op: "begin", Name: "TestE"},
+			{Op: "match", Name: "TestE", API: "snapshot", Cfg: cfg, Val: strVal("new value")},
+			{Op: "match", Name: "TestE", API: "snapshot", Cfg: cfg, Val: strVal("second")},
+			{Op: "match", Name: "TestE", API: "ssnap", Cfg: cfg, Val: strVal("standalone after the error")},
+			{Op: "end", Name: "TestE"}}
+		sc.Procs = append(sc.Procs, &Proc{Spec: procSpec("default"), Steps: steps})
+		sc.Note = "a standalone write error through Config " + cfg + ", then more calls through the same Config"
+		out = append(out, sc)
 	}
 	return out
 }
